@@ -257,7 +257,7 @@ def rec_content(rng, kind, crlf):
     if kind == 'THETA':
         items = [theta_item(rng) for _ in range(rng.randint(1, 4))]
         if rng.random() < 0.08:
-            items.append(rng.choice(['NUMBERPOINTS=3', 'ABORT', 'NOABORT']))
+            items.append(rng.choice(['ABORT', 'NOABORT', 'NOABORTFIRST']))
         return ws(rng) + lines_join(rng, items, n, lambda: c(0.5))
     if kind in ('OMEGA', 'SIGMA'):
         r = rng.random()
@@ -281,7 +281,7 @@ def rec_content(rng, kind, crlf):
             if rng.random() < 0.15:
                 items[-1] += ' FIX'
             return ws(rng) + lines_join(rng, items, n, lambda: c(0.4), force_newlines=rng.random() < 0.7)
-        if r < 0.92:
+        if r < 0.99:
             return ws(rng) + rng.choice(['BLOCK(2) SAME', 'BLOCK SAME', 'BLOCK(1) SAME(2)', 'BLOCK SAME(3)']) + c() + n
         return ws(rng) + f"BLOCK({rng.randint(2, 4)}) VALUES(0.1,0.01)" + rng.choice(['', ' FIX']) + c() + n
     if kind == 'ESTIMATION':
@@ -346,7 +346,7 @@ def raw_name(rng, kind):
         name = kind
     elif r < 0.75 and kind in alias:
         name = rng.choice(alias[kind])
-    elif r < 0.95:
+    elif r < 0.99:
         k = rng.randint(3, len(kind)) if len(kind) >= 3 else len(kind)
         name = kind[:k]
     else:
@@ -393,7 +393,7 @@ def gen_stream(rng):
         if kind == 'UNKNOWN':
             name = '$' + rng.choice(UNKNOWN)
             content = rec_content(rng, 'UNKNOWN', crlf)
-        elif rng.random() < 0.04:
+        elif rng.random() < 0.01:
             name = '$' + rng.choice(SYNONYMS)          # spelling unrelated to the content that follows
             content = rec_content(rng, kind, crlf)
         else:
